@@ -58,6 +58,18 @@ Proof.
     + destruct (co_act_ends o); [reflexivity | discriminate].
     + destruct (co_parent_end o); [discriminate | reflexivity].
 Qed.
+Theorem caught_check_sound o : caught_check o = [] ->
+  co_inputs_ok o = true /\ exists t t1 t2, co_child_end o = Some (SError, t) /\ co_act_ends o = [(SError, t1); (SCompleted, t2)] /\
+                                          (t <= t1)%Z /\ (t1 <= t2)%Z /\ co_act_open o = false.
+Proof.
+  unfold caught_check. intros H. apply app_eq_nil in H as [H1 H2].
+  split; [destruct (co_inputs_ok o); [reflexivity | discriminate]|].
+  destruct (co_child_end o) as [[s t]|]; [|discriminate]. destruct s; try discriminate.
+  destruct (co_act_ends o) as [|[s1 t1] [|[s2 t2] [|x l]]]; try discriminate; destruct s1; try discriminate; destruct s2; try discriminate.
+  destruct (Z.leb t t1 && Z.leb t1 t2 && negb (co_act_open o)) eqn:E; [|discriminate].
+  apply andb_true_iff in E as [E E3]. apply andb_true_iff in E as [E1 E2]. apply Z.leb_le in E1, E2. apply negb_true_iff in E3.
+  exists t, t1, t2. auto.
+Qed.
 Theorem forced_check_sound o : forced_check o = [] -> co_inputs_ok o = true /\ exists x, co_act_ends o = [x].
 Proof.
   unfold forced_check. intros H. apply app_eq_nil in H as [H1 H2].
